@@ -9,7 +9,8 @@ F_CP = 'atsim/potentials/config/_config_parser.py'
 F_REG = 'atsim/potentials/config/_potential_form_registry.py'
 F_EB = 'atsim/potentials/config/_eam_potential_builder.py'
 import contracts.duplicates as DU
-FUNCTIONS = [(F_CP, 'ConfigParser._pair_species_func'), (F_CP, 'ConfigParser._check_for_duplicate_pairs')]
+import contracts.builders_eam as BE
+FUNCTIONS = [(F_CP, 'ConfigParser._pair_species_func'), (F_CP, 'ConfigParser._check_for_duplicate_pairs'), (F_EB, 'EAM_Potential_Builder_FS._density_to_potential_form_dict')]
 
 def lemmas():
     out = []
@@ -48,8 +49,7 @@ def lemmas():
     out.append(S('C20', F_REG, 'Potential_Form_Registry.__init__', 'standard-then-table-then-formula',
                  ['self._potential_forms.update(self._register_standard())', 'self._potential_forms.update(self._build_table_forms(cfg.table_form))', 'self._potential_forms.update(self._build_potential_forms(definitions))']))
     # (5) Finnis-Sinclair densities
-    out.append(S('C20', F_EB, 'EAM_Potential_Builder_FS._density_to_potential_form_dict', 'duplicate-A->B-rejected',
-                 ['add_to = outdict.setdefault(f_species, {})', 'if t_species in add_to:\n            raise ConfigurationException', 'add_to[t_species] = pot_func']))
+    # (5) Finnis-Sinclair densities: EAM_Potential_Builder_FS._density_to_potential_form_dict is under an Engine A contract (contracts/builders_eam.py)
     # exception classes are configuration errors
     from pyvc.exceptions import bases_of
     for cls in ('ConfigParserDuplicateEntryException', 'Potential_Form_Registry_Exception', 'ConfigOverrideDuplicateException'):
@@ -67,11 +67,11 @@ MODULE_MUTANTS = [
     (F_CP, "    option = option.strip().replace(' ', '').replace('\\t', '')\n", "    option = option.strip()\n", 'optionxform'),
     (F_CP, "        if (p in seen) or (rev_p in seen):", "        if (p in seen):", '_check_for_duplicate_pairs/preserve'),
     (F_REG, "      if d.signature.label in self._potential_forms:\n        raise Potential_Form_Registry_Exception(\"The label of a [Potential-Form] entry is already in use by a table form or standard potential form: '{0}'\".format(d.signature.label))\n", "", 'label-clash'),
-    (F_EB, "      if t_species in add_to:\n        raise ConfigurationException(\"Duplicate density function found for {}\".format(d.species))\n", "", 'duplicate-A->B'),
+    (F_EB, "      if t_species in add_to:\n        raise ConfigurationException(\"Duplicate density function found for {}\".format(d.species))\n", "", '_density_to_potential_form_dict/preserve'),
 ]
 ENGINE_B_FUNCTIONS = [(F_CP, '_RawConfigParser.optionxform'),
                       (F_CP, '_TableFormSection.check_for_duplicate_table_forms'), (F_REG, 'Potential_Form_Registry._build_potential_forms'),
-                      (F_REG, 'Potential_Form_Registry._build_table_forms'), (F_EB, 'EAM_Potential_Builder_FS._density_to_potential_form_dict')]
+                      (F_REG, 'Potential_Form_Registry._build_table_forms')]
 ASSUMPTIONS = ['A5: configparser.RawConfigParser(strict=True) raises DuplicateOptionError / DuplicateSectionError when two keys of a section (two section names) are equal after optionxform (validated by the oracle on the real module)',
                'structural obligations: the duplicate tests are read from the normalised source of the functions; a re-written but equivalent test is reported as undecided and decided by the oracle']
 BOUNDED = [dict(name='every way of duplicating an entry of a generated model is refused with a configuration error', bound='8 kinds of duplication x whitespace/order variants; quick 64 / thorough 2000 models', technique='concrete oracle')]
